@@ -179,6 +179,8 @@ def run(chk):
     writeoffset.run(chk)
     from lib import movn32
     movn32.run(chk)
+    from lib import disp8fits
+    disp8fits.run(chk)
     return chk.finish(
         level="other",
         explanation=("Structural clauses over CodeWriterUtils in /repo's current source: every success exit of the offset encoders is "
